@@ -15,6 +15,16 @@ type c06State struct {
 func SetupC06Parked() any {
 	set := corpusSet(sym.Param("set"))
 	p := newProbeRouter(fox.WithRedirectTrailingSlash(true))
+	if sym.ParamOr("deep", 0) == 1 {
+		// a chain of 30 nested radix nodes, every prefix a route (the iterators switch to another traversal
+		// stack strategy on deep trees)
+		pat := "/"
+		for k := 0; k < 30; k++ {
+			pat += "d"
+			mustHandle(p, "GET", pat)
+		}
+		return &c06State{p: p}
+	}
 	for i, rt := range set.Routes {
 		mustHandle(p, methodOf(i), rt.Pattern)
 	}
@@ -131,5 +141,52 @@ func HarnessC06Parked(st any) {
 		_ = snap.Len()
 		secondWriterBlocks()
 		txn.Abort()
+	case 4: // readers that started on a tree which has been replaced since: context closers, iterators, read-only txns
+		req := &http.Request{Method: "GET", Host: host, URL: &url.URL{Path: path}}
+		_, cc, _ := r.Lookup(nil, req)
+		it := r.Iter()
+		ro := r.Txn(false)
+		_, rcc, _ := ro.Lookup(nil, req)
+		if _, err := r.Handle("GET", "/committed/meanwhile", noopHandler); err != nil {
+			panic(err)
+		}
+		txn := r.Txn(true)
+		_, _ = txn.Handle("GET", "/parked/{a}", noopHandler)
+		if cc != nil {
+			cl := cc.Clone()
+			_ = cl.Pattern()
+			cw := cc.CloneWith(cc.Writer(), req)
+			cw.Close()
+			cc.Close()
+			sym.Cover("stale context closed while a writer was parked")
+		}
+		if rcc != nil {
+			rcc.Close()
+		}
+		n := 0
+		for range it.All() {
+			n++
+		}
+		for range it.Prefix(it.Methods(), pattern) {
+			n++
+		}
+		for range it.Routes(it.Methods(), pattern) {
+			n++
+		}
+		for range it.Reverse(it.Methods(), host, path) {
+			n++
+		}
+		ro.Has("GET", pattern)
+		ro.Reverse("GET", host, path)
+		for range ro.Iter().Reverse(ro.Iter().Methods(), host, path) {
+			n++
+		}
+		ro.Abort()
+		allReads(s, host, path, pattern)
+		secondWriterBlocks()
+		txn.Abort()
+		if _, err := r.Delete("GET", "/committed/meanwhile"); err != nil {
+			panic(err)
+		}
 	}
 }
